@@ -177,6 +177,10 @@ class C03:
                 continue
             for p in ((0, rng.randint(1, 5)) if not ctx.thorough else range(6)):
                 out.append((p, False, v[0] == "Y" or rng.random() < 0.5, v))
+        for k in (999, 1000, 1001, 2000):
+            for v in (("l", [("I", i % 7) for i in range(k)]), ("t", [("I", i % 5) for i in range(k)]), ("l", [("N",), ("l", [("I", 1)] * k)])):
+                for p in ((1, 2, 4) if not ctx.thorough else range(6)):
+                    out.append((p, rng.random() < 0.5, rng.random() < 0.5, v))
         # payloads beyond 64 KiB (the decoder pre-allocates at most that much and must still read all of it)
         for n in (65536, 65537, 70001) + ((200001,) if ctx.thorough else ()):
             pay = bytes((i * 5 + 1) % 127 + 1 for i in range(n))
@@ -459,6 +463,10 @@ class C12:
                     ("m", [(("I", i), ("N",)) for i in range(k)]), ("d", [(("I", i), ("N",)) for i in range(k)]),
                     ("c", b"m", b"n", [("I", i) for i in range(k)])]
         out += V.edge_string_values()
+        # containers of exactly / around a thousand items (picklers batch at 1000), bare and nested
+        for k in (999, 1000, 1001, 2000, 2001):
+            out += [("l", [("I", i % 7) for i in range(k)]), ("t", [("I", i % 5) for i in range(k)]), ("d", [(("I", i), ("N",)) for i in range(k)]),
+                    ("l", [("N",), ("l", [("I", 1)] * k)]), ("c", b"m", b"n", [("I", 2)] * k)]
         for _ in range(n):
             g = V.ValueGen(rng, pydict=rng.random() < 0.5, su=rng.random() < 0.5, canonical=False, maxdepth=rng.choice([1, 2, 3, 4]))
             out.append(g.value())
